@@ -76,8 +76,19 @@ def install(I):
 
     def rlock_ctor(I_, a, k):
         lk = Opaque('RLock', attrs={'depth': 0})
-        lk.methods['acquire'] = lambda I2, o, a2, k2: I2.ghost['lock_acquire'](I2, o, a2, k2)
-        lk.methods['release'] = lambda I2, o, a2, k2: I2.ghost['lock_release'](I2, o, a2, k2)
+        def acquire(I2, o, a2, k2):          # default: an uncontended re-entrant lock
+            if 'lock_acquire' in I2.ghost:
+                return I2.ghost['lock_acquire'](I2, o, a2, k2)
+            o.attrs['depth'] += 1
+            return True
+        def release(I2, o, a2, k2):
+            if 'lock_release' in I2.ghost:
+                return I2.ghost['lock_release'](I2, o, a2, k2)
+            if o.attrs['depth'] <= 0:
+                I2.raise_builtin('RuntimeError', 'cannot release un-acquired lock')
+            o.attrs['depth'] -= 1
+        lk.methods['acquire'] = acquire
+        lk.methods['release'] = release
         return lk
     module('threading', Thread=Builtin('Thread', thread_ctor), Event=Builtin('Event', event_ctor),
            RLock=Builtin('RLock', rlock_ctor))
